@@ -177,6 +177,11 @@ class Engine:
                     raise Violation(self.prop, "lookup", {"after": ctx, "what": f"{th}[{name!r}]", "want": want})
             if t.get(len(cols)) is not None:
                 raise Violation(self.prop, "lookup", {"after": ctx, "what": f"{th}.get({len(cols)})"})
+            sentinel = object()
+            if t.get("no such column, surely", sentinel) is not sentinel or t.get(len(cols) + 3, sentinel) is not sentinel:
+                raise Violation(self.prop, "lookup", {"after": ctx, "what": f"{th}.get(missing, default) did not return the default"})
+            if cols and t.get(self.w.m[cols[-1]]["name"], sentinel) is sentinel:
+                raise Violation(self.prop, "lookup", {"after": ctx, "what": f"{th}.get(existing, default) returned the default"})
 
 
 def world_from_json(j: Dict[str, Any]) -> World:
